@@ -1644,7 +1644,7 @@ var _ uuid.UUID
 // what starting or stopping the raft group of ONE partition leaves alone: the catalogue (map, manager wiring, the datasets'
 // partition lists and records), a catalogue snapshot that is being restored, and byte strings (ids). Stated once, used as the
 // frame of the whole load/unload chain (loadRaft, RaftGroup.Start, the group's snapshot consumer, unloadRaft).
-//@ frameset catalogue = maps[map[uuid.UUID]*Dataset]; maps[map[uuid.UUID]*partition]; maps[map[uuid.UUID]struct{}]; type DatasetManager.datasets; type DatasetManager.notificator; type DatasetManager.allocator; type DatasetManager.clusterConn; type DatasetManager.raft; type Dataset.partitions; type Dataset.partitionsMap; type Dataset.meta; type Dataset.id; mem[*partition]; type partition.id; type partition.meta; type partition.dataset; type partition.raftTransport; type partition.raftMu; type partition.log; type partition.wal; type pb.DatasetManagerSnapshot.Datasets; mem[*pb.Dataset]; type pb.Dataset.Id; type pb.Dataset.PartitionCount; type pb.Dataset.Partitions; mem[*pb.Partition]; type pb.Partition.Id; type pb.Partition.NodeIds; mem[uint64]; mem[byte]; type raft.RaftTransport.nodeId; type Allocator.partitions
+//@ frameset catalogue = maps[map[uuid.UUID]*Dataset]; maps[map[uuid.UUID]*partition]; maps[map[uuid.UUID]struct{}]; type DatasetManager.datasets; type DatasetManager.notificator; type DatasetManager.allocator; type DatasetManager.clusterConn; type DatasetManager.raftWalDB; type DatasetManager.raft; type Dataset.partitions; type Dataset.partitionsMap; type Dataset.meta; type Dataset.id; mem[*partition]; type partition.id; type partition.meta; type partition.dataset; type partition.raftTransport; type partition.raftMu; type partition.log; type partition.wal; type pb.DatasetManagerSnapshot.Datasets; mem[*pb.Dataset]; type pb.Dataset.Id; type pb.Dataset.PartitionCount; type pb.Dataset.Partitions; mem[*pb.Partition]; type pb.Partition.Id; type pb.Partition.NodeIds; mem[uint64]; mem[byte]; type raft.RaftTransport.nodeId; type Allocator.partitions
 
 //@ func (*storage.partition).loadRaft
 //@ props C05 C14
@@ -1689,13 +1689,13 @@ var _ uuid.UUID
 //@ requires [wf] this.meta != nil
 //@ ensures [C14 exactly-the-recorded-set] len(this.meta.NodeIds) == len(nodeIds) && forall i int :: 0 <= i && i < len(nodeIds) ==> this.meta.NodeIds[i] == nodeIds[i]
 //@ ensures [C14 own-list] len(nodeIds) > 0 ==> fresh(this.meta.NodeIds)
-//@ modifies * except maps[map[uuid.UUID]*Dataset]; maps[map[uuid.UUID]*partition]; maps[map[uuid.UUID]struct{}]; type DatasetManager.datasets; type DatasetManager.notificator; type DatasetManager.allocator; type DatasetManager.clusterConn; type DatasetManager.raft; type Dataset.partitions; type Dataset.partitionsMap; type Dataset.meta; type Dataset.id; mem[*partition]; type partition.id; type partition.meta; type partition.dataset; type partition.raftTransport; type partition.raftMu; type partition.log; type partition.wal; type pb.DatasetManagerSnapshot.Datasets; mem[*pb.Dataset]; type pb.Dataset.Id; type pb.Dataset.PartitionCount; type pb.Dataset.Partitions; mem[*pb.Partition]; type pb.Partition.Id; mem[byte]; type raft.RaftTransport.nodeId; type Allocator.partitions
+//@ modifies * except maps[map[uuid.UUID]*Dataset]; maps[map[uuid.UUID]*partition]; maps[map[uuid.UUID]struct{}]; type DatasetManager.datasets; type DatasetManager.notificator; type DatasetManager.allocator; type DatasetManager.clusterConn; type DatasetManager.raftWalDB; type DatasetManager.raft; type Dataset.partitions; type Dataset.partitionsMap; type Dataset.meta; type Dataset.id; mem[*partition]; type partition.id; type partition.meta; type partition.dataset; type partition.raftTransport; type partition.raftMu; type partition.log; type partition.wal; type pb.DatasetManagerSnapshot.Datasets; mem[*pb.Dataset]; type pb.Dataset.Id; type pb.Dataset.PartitionCount; type pb.Dataset.Partitions; mem[*pb.Partition]; type pb.Partition.Id; mem[byte]; type raft.RaftTransport.nodeId; type Allocator.partitions
 
 // ---------------------------------------------------------------------------------------------
 // C14: the dataset catalogue as a replicated state machine. cat(dm) = dm.datasets : id -> dataset (with its meta record).
 
 //@ spec noNilPartitions(d *Dataset) bool = forall i int :: 0 <= i && i < len(d.partitions) ==> d.partitions[i] != nil
-//@ spec dmwf(dm *DatasetManager) bool = dm.datasets != nil && dm.notificator != nil && dm.allocator != nil && dm.allocator.partitions != nil && dm.clusterConn != nil
+//@ spec dmwf(dm *DatasetManager) bool = dm.datasets != nil && dm.notificator != nil && dm.allocator != nil && dm.allocator.partitions != nil && dm.clusterConn != nil && dm.raftWalDB != nil
 
 // newDataset (assumed): builds the in-memory dataset from the decoded record; fails only on malformed partition ids
 // dependencies of newPartition (assumed): a new index is empty and configured with the package defaults; the WAL handle and the
@@ -1713,8 +1713,8 @@ var _ uuid.UUID
 //@ modifies nothing
 
 //@ func storage.newPartition
-//@ props C14 C12
-//@ requires [dataset] dataset != nil && dataset.meta != nil
+//@ props C14 C12 C06
+//@ requires [dataset] dataset != nil && dataset.meta != nil && raftWalDB != nil
 //@ ensures [C12 built] ret != nil && fresh(ret) && ret.id == id && ret.meta == meta && ret.dataset == dataset && ret.index != nil && fresh(ret.index) && cfgSized(ret.index) && ret.index.len == 0 && ret.notificator != nil && ret.notificator.chans != nil && ret.raft == nil
 //@ modifies nothing
 
@@ -1722,7 +1722,7 @@ var _ uuid.UUID
 // Create accepted (one non-nil partition record per partition) the result satisfies the invariant all request paths rely on.
 //@ func storage.newDataset
 //@ props C14 C12
-//@ requires [record] len(meta.Partitions) == meta.PartitionCount && meta.PartitionCount >= 1 && clusterConn != nil && forall i int :: 0 <= i && i < len(meta.Partitions) ==> meta.Partitions[i] != nil
+//@ requires [record] len(meta.Partitions) == meta.PartitionCount && meta.PartitionCount >= 1 && clusterConn != nil && raftWalDB != nil && forall i int :: 0 <= i && i < len(meta.Partitions) ==> meta.Partitions[i] != nil
 //@ ensures [built] isnil(ret1) ==> ret0 != nil && fresh(ret0) && ret0.id == id && ret0.meta != nil && ret0.meta.Dimension == meta.Dimension && ret0.meta.Space == meta.Space && ret0.meta.PartitionCount == meta.PartitionCount && ret0.meta.ReplicationFactor == meta.ReplicationFactor && ret0.meta.Partitions == meta.Partitions
 //@ ensures [partitions] isnil(ret1) ==> noNilPartitions(ret0)
 //@ ensures [C12 built-wf] isnil(ret1) ==> wfDatasetFull(ret0)
@@ -1904,7 +1904,7 @@ var _ uuid.UUID
 
 // C14 (replica-set changes): the node list of a partition as a replicated value. addNode appends, removeNode filters; the raft
 // group of the local node is started/stopped after the list has been changed (the load/unload chain leaves the lists alone)
-//@ frameset cataloguekeys = maps[map[uuid.UUID]*Dataset]; maps[map[uuid.UUID]*partition]; maps[map[uuid.UUID]struct{}]; type DatasetManager.datasets; type DatasetManager.notificator; type DatasetManager.allocator; type DatasetManager.clusterConn; type DatasetManager.raft; type Dataset.partitions; type Dataset.partitionsMap; type Dataset.meta; type Dataset.id; mem[*partition]; type partition.id; type partition.meta; type partition.dataset; type partition.raftTransport; type partition.raftMu; type partition.log; type partition.wal; type pb.DatasetManagerSnapshot.Datasets; mem[*pb.Dataset]; type pb.Dataset.Id; type pb.Dataset.PartitionCount; type pb.Dataset.Partitions; mem[*pb.Partition]; type pb.Partition.Id; mem[byte]; type raft.RaftTransport.nodeId; type Allocator.partitions
+//@ frameset cataloguekeys = maps[map[uuid.UUID]*Dataset]; maps[map[uuid.UUID]*partition]; maps[map[uuid.UUID]struct{}]; type DatasetManager.datasets; type DatasetManager.notificator; type DatasetManager.allocator; type DatasetManager.clusterConn; type DatasetManager.raftWalDB; type DatasetManager.raft; type Dataset.partitions; type Dataset.partitionsMap; type Dataset.meta; type Dataset.id; mem[*partition]; type partition.id; type partition.meta; type partition.dataset; type partition.raftTransport; type partition.raftMu; type partition.log; type partition.wal; type pb.DatasetManagerSnapshot.Datasets; mem[*pb.Dataset]; type pb.Dataset.Id; type pb.Dataset.PartitionCount; type pb.Dataset.Partitions; mem[*pb.Partition]; type pb.Partition.Id; mem[byte]; type raft.RaftTransport.nodeId; type Allocator.partitions
 //@ func (*storage.partition).addNode
 //@ props C14
 //@ safety UNCLAIMED
